@@ -25,6 +25,8 @@ Init ==
     cmdBytes |-> 0, cmdFailed |-> FALSE, cmdOther |-> FALSE,
     dead |-> {},            \* streamed sends whose PUBLISH header was never written (the send failed)
     deadChunk |-> FALSE,    \* the current command feeds a chunk to such a stream
+    dropOwed |-> FALSE,     \* a stream handle was dropped while its PUBLISH still owed payload
+    stopped |-> FALSE,      \* the connection has ended (Stop notification / connection task done)
     ended |-> FALSE ]
 
 Fail(m, why) == IF m.bad = "none" THEN [m EXCEPT !.bad = why] ELSE m
@@ -101,14 +103,22 @@ Step(m, ev) ==
     [] ev.e = "send_call" /\ ev.k = "chunk" -> [m EXCEPT !.deadChunk = (ev.id \in m.dead)]
     [] ev.e = "cmd" -> CmdEnd(m)
     [] ev.e = "send_done" ->
-         IF ev.k \in {"Encode", "PacketIdInUse"} THEN [m EXCEPT !.cmdFailed = TRUE, !.dead = @ \cup {ev.s}] ELSE m
+         IF ev.k \in {"Encode", "PacketIdInUse", "ExpectPayload"} THEN [m EXCEPT !.cmdFailed = TRUE, !.dead = @ \cup {ev.s}] ELSE m
     [] ev.e \in {"h_end", "in", "settled", "release", "receipt_drop", "ctl"} ->
          \* something else may legitimately have written during this command
          LET m1 == [m EXCEPT !.cmdOther = TRUE] IN
          IF ev.e = "ctl" /\ ev.k \in {"stop_proto", "stop_error", "stop_peer"}
-           THEN [m1 EXCEPT !.aborted = TRUE] ELSE m1
-    [] ev.e \in {"stream_drop", "close", "peer_close", "io_err", "conn_done"} ->
-         [m EXCEPT !.aborted = TRUE, !.cmdOther = TRUE]
+           THEN [m1 EXCEPT !.aborted = TRUE, !.stopped = TRUE]
+         ELSE IF ev.e = "settled" /\ m.dropOwed /\ ~m.stopped
+           THEN \* quiescent, the connection is alive, and a PUBLISH whose stream handle is gone will never be
+                \* completed: it was "continued with a short payload" instead of being aborted
+                Fail(m1, "C08:stream-dropped-with-payload-owed-but-the-connection-goes-on")
+         ELSE m1
+    [] ev.e = "stream_drop" ->
+         [m EXCEPT !.aborted = TRUE, !.cmdOther = TRUE,
+                   !.dropOwed = @ \/ (Len(m.buf) > 0 /\ m.buf[1] \div 16 = 3 /\ ev.s \notin m.dead)]
+    [] ev.e \in {"close", "peer_close", "io_err", "conn_done"} ->
+         [m EXCEPT !.aborted = TRUE, !.cmdOther = TRUE, !.stopped = @ \/ ev.e = "conn_done"]
     [] ev.e = "panic" -> Fail(m, "C08:panic")
     [] ev.e = "end" ->
          LET m1 == CmdEnd([m EXCEPT !.ended = TRUE]) IN
